@@ -72,8 +72,8 @@ def rand_ops(rng, n, auto, allow_blank=True):
     return ops
 
 
-def mk_case(syntax, ign, auto, lines, ops, origin="gen", delims=None):
-    return {"syntax": syntax, "factory": False, "ignore_blank": ign, "delims": delims, "auto_commit": auto,
+def mk_case(syntax, ign, auto, lines, ops, origin="gen", delims=None, factory=False):
+    return {"syntax": syntax, "factory": bool(factory), "ignore_blank": ign, "delims": delims, "auto_commit": auto,
             "lines": list(lines), "ops": ops, "req": None, "_origin": origin}
 
 
@@ -97,7 +97,36 @@ def enc_op(op, row=None, newtext=None):
         return f"rep:{op[1]}:{wire.enc_str(op[2])}:{wire.enc_str(op[3])}"
     if k == "sub":
         return f"sub:{op[1]}:{wire.enc_str(newtext)}"
+    # ---- other input forms / rejections (C06, channel `editx`): an argument is `<S|L|X>:<text>`
+    if k == "insf":
+        return f"insf:{op[1]}:{enc_arg(op[2], op[3])}"
+    if k in ("oibf", "oiaf"):
+        return f"{k}:{op[1]}:{enc_arg(op[2], op[3])}"
+    if k in ("libf", "liaf"):
+        return f"{k}:{enc_arg(op[1], op[2])}:{''.join('1' if b else '0' for b in row)}:{enc_arg(op[3], op[4])}"
+    if k == "atfl":
+        return f"atfl:{op[1]}:{wire.enc_str(op[2])}:{op[3]}:{1 if op[4] else 0}"
+    if k in ("rem", "del2"):
+        return f"{k}:{op[1]}"
     return k
+
+
+EXT_OPS = ("insf", "oibf", "oiaf", "libf", "liaf", "atfl", "rem", "remf", "remx", "del2")
+
+
+def enc_arg(form, txt):
+    return f"{form}:{wire.enc_str(txt if form != 'X' else '')}"
+
+
+def mk_arg(form, txt, syntax):
+    """the Python value an argument form stands for: `S` the text itself, `L` a line object that is in no list,
+    `X` a value that is neither (which one depends on the text only, so that a case is reproducible)"""
+    if form == "S":
+        return txt
+    if form == "L":
+        from ciscoconfparse2.ciscoconfparse2 import CFGLINE
+        return CFGLINE[syntax](line=txt)
+    return [None, 7, ["x"], 1.5, b"x"][len(txt) % 5]
 
 
 def run_history(case):
@@ -107,9 +136,10 @@ def run_history(case):
     from ciscoconfparse2.errors import InvalidParameters, ConfigListItemDoesNotExist
     p = T.parse_impl(case)
     auto = case["auto_commit"]
-    kw = dict(syntax=case["syntax"], factory=False, ignore_blank_lines=case["ignore_blank"])
+    kw = dict(syntax=case["syntax"], factory=bool(case.get("factory")), ignore_blank_lines=case["ignore_blank"])
     if case["delims"] is not None:
         kw["comment_delimiters"] = list(case["delims"])
+    syn = case["syntax"]
 
     def dump(dirty):
         if dirty:
@@ -136,13 +166,17 @@ def run_history(case):
         try:
             if k in ("lib", "lia"):
                 row = [re.search(op[1], t) is not None for t in p.get_text()] if op[1] != "" else [False] * len(p.config_objs)
-            if k in ("oib", "oia", "del", "atf", "rep", "sub"):
+            if k in ("libf", "liaf"):
+                # a `str` pattern must be non-empty; the text of a foreign line object is used as it is
+                usable = (op[1] == "S" and op[2] != "") or op[1] == "L"
+                row = [usable and re.search(op[2], t) is not None for t in p.get_text()]
+            if k in ("oib", "oia", "del", "atf", "rep", "sub", "oibf", "oiaf", "atfl", "rem", "del2"):
                 if not committed:
                     skip(op, row, newtext)
                     continue
                 obj = committed[op[1] % len(committed)]
                 present = any(o is obj for o in p.config_objs.data)
-                if k in ("del", "atf") and dirty:
+                if k in ("del", "atf", "atfl", "rem", "del2") and dirty:
                     # delete()/append_to_family() index by the stored line number, which is documented to be
                     # stale until the next commit; not modelled on an uncommitted state
                     skip(op, row, newtext)
@@ -176,6 +210,27 @@ def run_history(case):
                 before = obj.text
                 obj.re_sub(op[2], op[3])
                 changed = newtext != before
+            elif k == "insf":
+                p.config_objs.insert([None, "1", 1.5][len(op[3]) % 3] if op[1] == "X" else op[1], mk_arg(op[2], op[3], syn)); changed = True
+            elif k == "oibf":
+                obj.insert_before(mk_arg(op[2], op[3], syn)); changed = True
+            elif k == "oiaf":
+                obj.insert_after(mk_arg(op[2], op[3], syn)); changed = True
+            elif k == "libf":
+                p.config_objs.insert_before(exist_val=mk_arg(op[1], op[2], syn), new_val=mk_arg(op[3], op[4], syn)); changed = True
+            elif k == "liaf":
+                p.config_objs.insert_after(exist_val=mk_arg(op[1], op[2], syn), new_val=mk_arg(op[3], op[4], syn)); changed = True
+            elif k == "atfl":
+                obj.append_to_family(mk_arg("L", op[2], syn), indent=op[3], auto_indent=op[4]); changed = True
+            elif k == "rem":
+                p.config_objs.remove(obj); changed = True
+            elif k == "remf":
+                p.config_objs.remove(mk_arg("L", "zz foreign", syn)); changed = True
+            elif k == "remx":
+                p.config_objs.remove("a"); changed = True
+            elif k == "del2":
+                obj.delete(); changed = True
+                obj.delete()
             elif k == "commit":
                 p.commit(); dirty = False
             elif k == "probe":
@@ -194,14 +249,19 @@ def run_history(case):
             status = "err:" + type(e).__name__
         if k == "sub" and newtext is None:
             newtext = ""
-        if changed and status == "ok" and not auto:
+        if changed and (status == "ok" or k == "del2") and not auto:
+            # (`del2`: the first of the two deletes has succeeded when the second one raises)
             dirty = True
         if not dirty:
             committed = list(p.config_objs.data)
         enc.append(enc_op(op, row, newtext))
         out.append(status + at + "~" + dump(dirty))
     ds = T.cfg_delims(case["syntax"], case["delims"])
-    req = wire.req("edit", "1" if case["syntax"] == "ios" else "0", wire.enc_str("".join(ds)),
+    if case.get("factory") or any(o[0] in EXT_OPS for o in case["ops"]):
+        chan = ("editx", "hist", "1" if case.get("factory") else "0")
+    else:
+        chan = ("edit",)
+    req = wire.req(*chan, "1" if case["syntax"] == "ios" else "0", wire.enc_str("".join(ds)),
                    "1" if case["ignore_blank"] else "0", "1" if auto else "0", str(width_of(case["syntax"])),
                    wire.enc_strs(case["lines"]), *enc)
     return "#".join(out), req
